@@ -52,6 +52,7 @@ def run(chk, repo):
     chk.attempt(missing_stamps, chk, repo, "C07-K9")
     chk.attempt(check_codec, chk, repo, "C07", covered_by="codec_hit", rules=tuple(f"C07-K{i}" for i in range(1, 8)))
     chk.attempt(write_then_read, chk, repo)
+    chk.attempt(cli_index, chk, repo)
     chk.attempt(naming, chk, op)
     chk.attempt(naming_writer_reader, chk, op, covered_by="write_then_read", rules=("C07-N",))
     chk.attempt(cache_key, chk, op)
@@ -611,3 +612,65 @@ def _rootless(e):
 def _protocol_stripped(e):
     t = norm(e)
     return t.endswith(".fs.path") or t.endswith("mapper.root") or t.endswith(".root") or t.endswith("._strip_protocol(path)")
+
+
+def cli_index(chk, repo):
+    """C07-N4: the stand-alone tool (sar_image.cli.create_cache) evaluated on a model directory (vlib/cachefs.py) with open_image,
+    caching.encode and fsspec as recording stubs: the index it writes next to an image is the encoding of the group open_image built
+    for THAT image, under `<image file name>.index`; when it is given a directory (if the tool accepts one) an image that cannot be
+    opened gets no index, and no image gets the index of another"""
+    from collections import OrderedDict
+    from ..cachefs import World
+    from ..shapes import Const, DictS, Fn, Interp, NonTermination, Obj, ShapeError, _Raise
+    chk.rule("C07-N4", "the stand-alone tool writes, next to each image it indexes, the encoding of that image's own group as <image file name>.index", 1)
+    cm = repo.module("ceos_alos2.sar_image.cli")
+    where = f"{cm.relpath}:create_cache"
+    HH, HV = "IMG-HH-ALOS2012345678-160229-UBSL1.1__D", "IMG-HV-ALOS2012345678-160229-UBSL1.1__D"
+
+    def run(target, broken=()):
+        W = World(repo)
+        prod = ("data", "product")
+        W.dirs.update({("data",), prod})
+        for nm in (HH, HV, "LED-X", "summary.txt"):
+            W.local[prod + (nm,)] = Const(b"bytes of " + nm.encode())
+        I = Interp(repo)
+        sc = I.module_scope(cm)
+        opened = []
+
+        def open_image(I_, a, kw):
+            path = a[1] if len(a) > 1 else kw.get("path")
+            name = path.v if isinstance(path, Const) else None
+            opened.append(name)
+            if name in broken:
+                raise _Raise(f"ValueError: sizes mismatch in {name}", ["ValueError", "Exception", "BaseException", "object"])
+            return Obj("Group", OrderedDict(path=Const(name.split("-")[1] if name else "?"), of=Const(name)))
+
+        def encode(I_, a, kw):
+            g = a[0] if a else None
+            return Obj("Text", OrderedDict(of=g.fields.get("of") if isinstance(g, Obj) else Const(None)))
+        sc.vars["open_image"] = Fn("py", impl=open_image, name="open_image")
+        sc.vars["caching"] = Obj("caching", OrderedDict(encode=Fn("py", impl=encode, name="encode")))
+        sc.vars["fsspec"] = Obj("fsspec", OrderedDict(get_mapper=Fn("py", impl=lambda I_, a, kw: Obj("Mapper", OrderedDict(root=a[0] if a else Const("?"))), name="get_mapper")))
+        arg = W.path(prod + ((target,) if target else ()))
+        try:
+            I.call(I.lookup("create_cache", sc), [arg, Const(None)], OrderedDict(records_per_chunk=Const(7)))
+            outcome = "returned"
+        except _Raise as e:
+            outcome = f"raised: {e.what[:60]}"
+        written = {p_[-1]: (v_.fields["of"].v if isinstance(v_, Obj) and v_.cls == "Text" and isinstance(v_.fields.get("of"), Const) else repr(v_)) for p_, v_ in W.local.items() if p_[-1].endswith(".index")}
+        elsewhere = [p_ for p_ in W.local if p_[-1].endswith(".index") and p_[:-1] != prod]
+        return outcome, written, elsewhere
+    try:
+        outcome, written, elsewhere = run(HH)
+        chk.require(outcome == "returned" and written == {HH + ".index": HH} and not elsewhere, "C07-N4", where, "one image: <name>.index next to it holds the encoding of its own group",
+                    f"asked to index {HH}: {outcome}; index files written: {written}" + (f", outside the product directory: {elsewhere}" if elsewhere else ""), key="cli:single")
+        outcome, written, elsewhere = run(None, broken=(HV,))
+        if outcome.startswith("raised") and not written:
+            chk.ok("C07-N4", where, "a directory is not accepted (or nothing is written for it)")
+        else:
+            crossed = {k: v for k, v in written.items() if k != str(v) + ".index"}
+            chk.require(not crossed and HV + ".index" not in written, "C07-N4", where, "a directory: each image that opens gets its own index, the one that does not gets none",
+                        f"asked to index the product directory while {HV} cannot be opened: index files written {written} - " + (f"{sorted(crossed)[0]} holds the group of {crossed[sorted(crossed)[0]]}" if crossed else f"{HV}.index was written although the image could not be opened"),
+                        key="cli:directory")
+    except (ShapeError, NonTermination, RecursionError) as e:
+        raise AnalysisError(f"{where}: cannot be evaluated on the model directory: {str(e)[:160]}")
